@@ -232,8 +232,9 @@ class CompleteStageHandler(
 
                 if should_handle_after_stages:
                     after_stages = stage.first_after_stages()
+                    planned_after_stages: list[StageExecution] = []
                     if not after_stages:
-                        self._plan_after_stages(stage)
+                        planned_after_stages = self._plan_after_stages(stage)
                         after_stages = stage.first_after_stages()
 
                     not_started = [s for s in after_stages if s.status == WorkflowStatus.NOT_STARTED]
@@ -244,6 +245,8 @@ class CompleteStageHandler(
                         # before ack would otherwise re-enter while the
                         # after-stages run and cancel a healthy workflow.
                         with self.repository.transaction(self.queue) as txn:
+                            for planned in planned_after_stages:
+                                txn.store_stage(planned)
                             txn.store_stage(stage)
                             if message.message_id:
                                 txn.mark_message_processed(
@@ -297,8 +300,8 @@ class CompleteStageHandler(
                     # Plan on-failure stages exactly once per failure: replay
                     # after they completed must fall through to final failure
                     # handling, not spawn duplicate on-failure stages.
-                    has_on_failure = False if already_planned else self._plan_on_failure_stages(stage)
-                    if has_on_failure:
+                    planned_on_failure = [] if already_planned else self._plan_on_failure_stages(stage)
+                    if planned_on_failure:
                         stage.context["_on_failure_planned"] = True
                         after_stages = stage.first_after_stages()
                         # Only push StartStage for on-failure stages that are NOT_STARTED
@@ -308,6 +311,8 @@ class CompleteStageHandler(
                             # mark source message processed + push all
                             # on-failure stage messages together
                             with self.repository.transaction(self.queue) as txn:
+                                for planned in planned_on_failure:
+                                    txn.store_stage(planned)
                                 txn.store_stage(stage)
                                 if message.message_id:
                                     txn.mark_message_processed(
